@@ -299,6 +299,11 @@ func c14Closures(c *core.Ctx) {
 				c.Violatef("equality-closure-ignored", desc(), "IsEqual()=%v, closure returns its own error", eerr)
 				return
 			}
+			// the closure decides for every Stack comparand, the receiver itself and aliases of it included
+			if e1, e2, e3 := s.IsEqual(s), s.IsEqual(AStack(s)), s.IsEqual(twin); e1 != eErr || e2 != eErr || e3 != eErr {
+				c.Violatef("equality-closure-ignored:self", desc(), "IsEqual(self)=%v IsEqual(alias of self)=%v IsEqual(twin)=%v, closure returns its own error", e1, e2, e3)
+				return
+			}
 		} else if (eerr != nil) != (twin.IsEqual(other) != nil) {
 			c.Violatef("equality-not-restored", desc(), "IsEqual()=%v, built-in gives %v", eerr, twin.IsEqual(other))
 			return
@@ -436,6 +441,10 @@ func c14CondClosures(c *core.Ctx) {
 		if inst.eq {
 			if eerr != eErr {
 				c.Violatef("cond:equality-closure-ignored", desc(), "IsEqual()=%v", eerr)
+				return
+			}
+			if e1, e2 := cd.IsEqual(cd), cd.IsEqual(ACond(cd)); e1 != eErr || e2 != eErr {
+				c.Violatef("cond:equality-closure-ignored:self", desc(), "IsEqual(self)=%v IsEqual(alias of self)=%v", e1, e2)
 				return
 			}
 		} else if eerr != nil {
